@@ -127,7 +127,10 @@ def do_write(ctx, g, sh, start, data, tag):
             ctx.feature('writes_with_warnings_as_errors')
         # the data is a byte string in any of the usual guises; the address is given by position, by keyword, or left out when it is 0
         k = (start + n) % 6
-        arg = (bytes(data), bytearray(data), memoryview(bytes(data)))[k % 3]
+        if isinstance(data, bytearray) or tag in ('whole-region-bytearray', 'data-from-live-section', 'bytearray'):
+            arg = data        # (the caller's own object, as it is: what the caller does with it afterwards is part of the history)
+        else:
+            arg = (bytes(data), bytearray(data), memoryview(bytes(data)))[k % 3]
         ctx.feature('data_type:' + type(arg).__name__)
         if start == 0 and k >= 3:
             g.write_cart_data(arg)
